@@ -14,7 +14,9 @@ import (
 // Interp is the handle the driver uses.
 type Interp struct {
 	i        *interpreter
-	snapshot map[*ssa.Global]value
+	snapshot  map[*ssa.Global]value
+	pointees  map[*value]value
+	pointeeOf map[*value]string
 }
 
 var AllowInit func(p *ssa.Package) bool
@@ -119,17 +121,31 @@ func ToString(v interface{}) string { return toString(v) }
 // that each path starts from the post-init state.
 func (I *Interp) SnapshotGlobals() {
 	I.snapshot = map[*ssa.Global]value{}
+	I.pointees = map[*value]value{}
+	I.pointeeOf = map[*value]string{}
 	for g, cell := range I.i.globals {
 		if g.Pkg == nil || !strings.HasPrefix(g.Pkg.Pkg.Path(), TargetPkgPrefix) {
 			continue
 		}
 		I.snapshot[g] = copyVal(*cell)
+		// a package variable that points to a struct or array (a cached scratch object, say): the object it
+		// points to is part of the package-level state too
+		if p, ok := (*cell).(*value); ok && p != nil {
+			switch (*p).(type) {
+			case structure, array:
+				I.pointees[p] = copyVal(*p)
+				I.pointeeOf[p] = g.String()
+			}
+		}
 	}
 }
 
 func (I *Interp) restoreGlobals() {
 	for g, v := range I.snapshot {
 		*I.i.globals[g] = copyVal(v)
+	}
+	for p, v := range I.pointees {
+		*p = copyVal(v)
 	}
 }
 
@@ -140,6 +156,11 @@ func (I *Interp) GlobalsDiff() []string {
 	for g, v := range I.snapshot {
 		if !shallowSame(*I.i.globals[g], v) {
 			out = append(out, g.String())
+		}
+	}
+	for p, v := range I.pointees {
+		if !shallowSame(*p, v) {
+			out = append(out, "*"+I.pointeeOf[p])
 		}
 	}
 	return out
@@ -345,6 +366,9 @@ func init() {
 	externals["time.Now"] = func(fr *frame, args []value) value {
 		return zero(fr.fn.Signature.Results().At(0).Type())
 	}
+	// the runtime clock behind package time (linknamed, no Go body): a fixed instant
+	externals["time.runtimeNano"] = func(fr *frame, args []value) value { return int64(1) }
+	externals["time.now"] = func(fr *frame, args []value) value { return tuple{int64(0), int32(0), int64(1)} }
 }
 
 // copyVal copies aggregate values (struct, array) deeply; reference values are shared.
